@@ -391,12 +391,180 @@ fn floating_bus(o: &Opts, model: &mut Model, rep: &mut Report) {
     }
 }
 
+
+/// The floating bus behind *every* port nobody answers, not only 0x00FF: with the joystick and/or the
+/// mouse switched off their addresses belong to nobody, and a read there during a ULA fetch slot shows
+/// the byte the ULA is fetching. Reads walk through the frame (a read takes 4 T plus contention, the
+/// value is sampled one T before its end); the phase is shifted every 1000 reads.
+fn floating_ports(o: &Opts, model: &mut Model, rep: &mut Report, only: Option<(bool, bool, bool, u16, usize)>) {
+    let pat = |a: u16| -> u8 {
+        let v = (a as u32).wrapping_mul(97).wrapping_add(a as u32 >> 7) as u8;
+        if v == 0xFF {
+            0x7E
+        } else {
+            v
+        }
+    };
+    for m128 in [false, true] {
+        let frame = if m128 { 70908 } else { 69888 };
+        for (kempston, mouse) in [(false, false), (true, false), (false, true)] {
+            if let Some((m, k, mo, _, _)) = only {
+                if (m, k, mo) != (m128, kempston, mouse) {
+                    continue;
+                }
+            }
+            let cfg = IoCfg { m128, kempston, mouse, ext_mask: 0, ext_val: 1, ay_off: false };
+            model.ask(&format!("new {}", if m128 { 128 } else { 48 }));
+            let rtab = parse_table(&model.ask(&format!("rtab {}", cfg_text(&cfg))));
+            let mut e = prepared(&cfg);
+            for a in 0x4000u16..0x5B00 {
+                e.verif_write_mem(a, pat(a), 0);
+            }
+            let ports: Vec<u16> = match only {
+                Some((_, _, _, p, _)) => vec![p],
+                None => (0..=65535u16).filter(|p| rtab[*p as usize].1 == 0x80).collect(),
+            };
+            // start inside the picture
+            let cur = e.verif_frame_clocks();
+            e.verif_wait(frame - cur);
+            e.verif_set_frame_clocks(only.map(|x| x.4).unwrap_or(14300));
+            let passes = if only.is_some() { 1 } else { o.n(2, 6) };
+            let mut obs: Vec<(u16, usize, usize, u8)> = vec![];
+            for pass in 0..passes {
+                for (i, p) in ports.iter().enumerate() {
+                    let mut before = e.verif_frame_clocks();
+                    if before + 16 >= frame {
+                        e.verif_wait(frame - before);
+                        // most of the frame is border time: jump to the picture, at a phase that varies
+                        e.verif_set_frame_clocks(14300 + (i + pass as usize * 3) % 8);
+                        before = e.verif_frame_clocks();
+                    } else if before > 14336 + 192 * 228 + 300 && only.is_none() {
+                        e.verif_wait(frame - before);
+                        e.verif_set_frame_clocks(14300 + (i + pass as usize * 5) % 8);
+                        before = e.verif_frame_clocks();
+                    }
+                    if i % 1000 == 999 {
+                        e.verif_wait(1);
+                        before += 1;
+                    }
+                    let v = e.verif_read_io(*p);
+                    let after = e.verif_frame_clocks();
+                    if after > before {
+                        obs.push((*p, before, after - 1, v));
+                    }
+                }
+            }
+            let lines: Vec<String> = obs.iter().map(|(_, _, s, _)| format!("fbus {:x}", s)).collect();
+            let answers = model.ask_many(&lines);
+            for ((port, before, _s, got), ans) in obs.iter().zip(answers.iter()) {
+                rep.eval();
+                let exp = if ans == "-" { 0xFF } else { pat(u16::from_str_radix(ans, 16).unwrap()) };
+                rep.count("floating_ports", if ans == "-" { "idle" } else { "fetching" });
+                if ans != "-" {
+                    rep.class(format!("fbus-port {} {}", cfg.name(), bit_class(*port)));
+                }
+                if *got != exp {
+                    // the property: an unclaimed port shows the floating bus — the byte being fetched or 0xFF
+                    let spec_bad = ans != "-" && *got == 0xFF || ans == "-" && *got != 0xFF || !(0x4000u16..0x5B00).any(|a| pat(a) == *got) && *got != 0xFF;
+                    rep.violation(Violation {
+                        kind: if spec_bad { Kind::SpecViolated } else { Kind::ModelMismatch },
+                        key: format!("C07/floating-port/{}/{}", cfg.name(), bit_class(*port)),
+                        what: format!("{}: port {:04x}, which nobody claims, read at frame T-state {} returns {:02x}; the floating bus carries {:02x} then", cfg.name(), port, before, got, exp),
+                        correspondence: "corr.C07.floating-bus (Model.Machine.floatingBusAddr/readDecode vs read_io)".into(),
+                        case: J::obj(vec![("text", J::s(format!("{} fbusport {} {} {:04x} {}", if m128 { 128 } else { 48 }, kempston as u8, mouse as u8, port, before)))]),
+                        implementation: format!("{:02x}", got),
+                        expected: format!("{:02x}", exp),
+                    });
+                }
+            }
+        }
+    }
+}
+
+/// An extender whose claim changes over time (the host reconfigures it between accesses): at every access
+/// the extender must be asked again — it receives exactly the ports it claims *at that moment*.
+fn dynamic_extender(o: &Opts, rep: &mut Report, only: Option<&str>) {
+    let mut rng = Rng::new(o.seed ^ 0xD1A);
+    let n = if only.is_some() { 1 } else { o.n(300, 20_000) };
+    for _ in 0..n {
+        let mut r = rng.fork();
+        let m128 = r.chance(1, 2);
+        // a small working set of ports and claims, so that the same port is accessed around a change of claim
+        let ports: Vec<u16> = (0..3).map(|_| match r.below(4) { 0 => 0xFEFE, 1 => 0x7FFD, 2 => 0xFFFD, _ => r.u16() }).collect();
+        let claims: Vec<(u16, u16)> = vec![(0, 1), (0xFFFF, ports[0]), (0x00FF, ports[1] & 0xFF), (0, 0)];
+        // op: (kind 0 = claim change, 1 = read, 2 = write; index)
+        let mut ops: Vec<(u8, usize)> = match only {
+            Some(t) => t.split(',').filter_map(|x| { let mut i = x.split(':'); Some((i.next()?.parse().ok()?, i.next()?.parse().ok()?)) }).collect(),
+            None => (0..r.range(2, 24)).map(|_| match r.below(5) { 0 => (0u8, r.below(4) as usize), 1 | 2 => (1, r.below(3) as usize), _ => (2, r.below(3) as usize) }).collect(),
+        };
+        let run = |ops: &[(u8, usize)]| -> Option<String> {
+            let cfg = IoCfg { m128, kempston: false, mouse: false, ext_mask: 0, ext_val: 1, ay_off: false };
+            let mut c = Cfg::new(cfg.m128);
+            c.ay = true;
+            let mut e = emu(&c);
+            e.set_io_extender(Ext { mask: 0, val: 1, read_value: 0xE7, log: vec![] });
+            for (k, (kind, i)) in ops.iter().enumerate() {
+                match kind {
+                    0 => {
+                        let x = e.io_extender().unwrap();
+                        x.mask = claims[*i % 4].0;
+                        x.val = claims[*i % 4].1;
+                    }
+                    _ => {
+                        let port = ports[*i % 3];
+                        let (mask, val) = { let x = e.io_extender().unwrap(); (x.mask, x.val) };
+                        let claimed = port & mask == val;
+                        if *kind == 1 {
+                            e.verif_read_io(port);
+                        } else {
+                            e.verif_write_io(port, 0);
+                        }
+                        let x = e.io_extender().unwrap();
+                        let hit = !x.log.is_empty();
+                        x.log.clear();
+                        if hit != claimed {
+                            return Some(format!("operation #{}: {} of port {:04x} {} the extender, which {} it at that moment (claim mask {:04x} value {:04x})",
+                                k, if *kind == 1 { "read" } else { "write" }, port, if hit { "reaches" } else { "does not reach" }, if claimed { "claims" } else { "does not claim" }, mask, val));
+                        }
+                    }
+                }
+            }
+            None
+        };
+        rep.eval();
+        rep.count("dynamic_extender", "histories");
+        if run(&ops).is_some() {
+            // shrink: drop operations while it still fails
+            let mut i = 0;
+            while i < ops.len() {
+                let mut cand = ops.clone();
+                cand.remove(i);
+                if run(&cand).is_some() { ops = cand; } else { i += 1; }
+            }
+            let msg = run(&ops).unwrap();
+            let text: Vec<String> = ops.iter().map(|(k, i)| format!("{}:{}", k, i)).collect();
+            rep.violation(Violation {
+                kind: Kind::SpecViolated,
+                key: "C07/extender/dynamic-claim".into(),
+                what: format!("{} with an extender whose claim changes between accesses, ports {:04x?}: {}", if m128 { "128k" } else { "48k" }, ports, msg),
+                correspondence: "corr.C07.port-sweep (Model.Machine.readDecode/writeDecode take the extender's claim as an input of every access)".into(),
+                case: J::obj(vec![("text", J::s(format!("{} dynext {}", if m128 { 128 } else { 48 }, text.join(","))))]),
+                implementation: "stale claim".into(),
+                expected: "the extender is consulted at every access".into(),
+            });
+            return;
+        }
+    }
+}
+
 pub fn run(o: &Opts) -> Report {
     let mut rep = Report::new("C07");
     rep.rule = "exhaustive: all 65536 port addresses x {read, write} x {48K,128K} x {kempston on/off} x {mouse on/off} x \
 host-extender predicates, each executed by the real read_io/write_io, the device reached identified by the \
 distinguishable value returned (reads) or by its side effect (writes: border colour, AY register select/data via \
-read-back, paging latch, extender log); plus the floating bus at every T-state of a frame on both machines. \
+read-back, paging latch, extender log); plus the floating bus at every T-state of a frame on both machines, the \
+floating bus behind every port nobody claims (joystick/mouse addresses with the device off included) read during the \
+picture, and histories of accesses with an extender whose claim the host changes between accesses. \
 distinct/non-trivial = distinct (configuration, direction, device reached, decoded address-line class \
 A15 A14 A10 A8 A7-A5 A1 A0)".into();
     rep.exhaustive = true;
@@ -430,6 +598,11 @@ A15 A14 A10 A8 A7-A5 A1 A0)".into();
                 rep.eval();
                 record(&mut rep, &cfg, "write", port, got, raw, tab[port as usize].0, tab[port as usize].1, &WRITE_DEV);
             }
+        } else if t.get(1) == Some(&"fbusport") && t.len() == 6 {
+            let only = (t[0] == "128", t[2] == "1", t[3] == "1", u16::from_str_radix(t[4], 16).unwrap_or(0xFF), t[5].parse().unwrap_or(14400));
+            floating_ports(o, &mut model, &mut rep, Some(only));
+        } else if t.get(1) == Some(&"dynext") {
+            dynamic_extender(o, &mut rep, t.get(2).copied());
         } else {
             floating_bus(o, &mut model, &mut rep);
         }
@@ -473,5 +646,7 @@ A15 A14 A10 A8 A7-A5 A1 A0)".into();
         }
     }
     floating_bus(o, &mut model, &mut rep);
+    floating_ports(o, &mut model, &mut rep, None);
+    dynamic_extender(o, &mut rep, None);
     rep
 }
